@@ -479,6 +479,10 @@ func init() {
 		assumptions: []string{electreAssume},
 		streams: []*stream{
 			{name: "random", n: tierN(50000, 1600000), unit: 5000, run: c05Random, floors: map[string]int64{"compared_with_reference": 30000, "with_exaequo": 3000}},
+			{name: "random-service", n: tierN(8000, 160000), unit: 4000, run: c05Random, service: true,
+				note: "the same generator and oracle as the stream named in front of the dash, but every request goes through decideHandler of main.go in-process (gin binding, the handler's own request object) after a history of 1..3 unrelated requests (accepted and rejected)"},
+			{name: "afterBiases-service", n: tierN(3000, 60000), unit: 1500, run: c05AfterBiases, service: true,
+				note: "the same generator and oracle as the stream named in front of the dash, but every request goes through decideHandler of main.go in-process (gin binding, the handler's own request object) after a history of 1..3 unrelated requests (accepted and rejected)"},
 			{name: "large", n: tierN(32, 400), unit: 2, run: c05Large, floors: map[string]int64{"large_instances": 32}, note: "64..93 alternatives, all considered"},
 			{name: "afterBiases", n: tierN(10000, 400000), unit: 5000, run: c05AfterBiases, floors: map[string]int64{"compared_with_reference": 30000}},
 		},
@@ -495,6 +499,8 @@ func init() {
 				note: "65..80 alternatives, tie-heavy, three identical dominating alternatives at the highest positions"},
 			{name: "vetoDominance", n: tierN(60000, 800000), unit: 5000, run: c06Veto, floors: map[string]int64{"dominance_pairs": 10000},
 				note: "every criterion has q, p and v; a dominated copy is planted in half of the instances"},
+			{name: "relations-service", n: tierN(4000, 60000), unit: 2000, run: c06Case, service: true,
+				note: "the same generator and oracle as the stream named in front of the dash, but every request goes through decideHandler of main.go in-process (gin binding, the handler's own request object) after a history of 1..3 unrelated requests (accepted and rejected)"},
 			{name: "relations", n: tierN(20000, 600000), unit: 2500, run: c06Case,
 				floors: map[string]int64{"dominance_pairs": 10000, "identical_pairs": 500, "permutations": 30000, "scalings": 15000}},
 		},
